@@ -1,0 +1,27 @@
+//! Read-only accessors for the external verification harness.
+//! Compiled only with `--cfg samlang_verif`; nothing here changes behaviour.
+
+use super::server_state::ServerState;
+use samlang_ast::source::Module;
+use samlang_checker::type_::{GlobalSignature, Type};
+use samlang_errors::CompileTimeError;
+use samlang_heap::ModuleReference;
+use std::{collections::HashMap, sync::Arc};
+
+impl ServerState {
+  pub fn verif_global_cx(&self) -> &GlobalSignature {
+    &self.global_cx
+  }
+
+  pub fn verif_parsed_modules(&self) -> &HashMap<ModuleReference, Module<()>> {
+    &self.parsed_modules
+  }
+
+  pub fn verif_checked_modules(&self) -> &HashMap<ModuleReference, Module<Arc<Type>>> {
+    &self.checked_modules
+  }
+
+  pub fn verif_errors(&self) -> &HashMap<ModuleReference, Vec<CompileTimeError>> {
+    &self.errors
+  }
+}
